@@ -103,26 +103,40 @@ class ClassView:
             nm = work.pop()
             if nm in seen:
                 continue
-            bodies = []
-            c, fn = self.method(nm)
-            if fn is not None:
-                bodies.append((c, fn, "method"))
-            else:
-                for (c2, s) in self.stores(nm):
-                    if s.kind == "lambda":
-                        bodies.append((c2, s.value, "lambda"))
-                    elif s.kind == "alias":
-                        # self.gamma_F = self.__gamma_F
-                        tgt = s.value.attr
-                        if isinstance(s.value.value, ast.Name):
-                            work.append(tgt)
-            seen[nm] = bodies
-            for (_, b, _) in bodies:
+            bodies = self.bodies(nm)
+            for (c2, s) in self.stores(nm):
+                if s.kind == "alias" and isinstance(s.value.value, ast.Name):
+                    work.append(s.value.attr)  # self.gamma_F = self.__gamma_F
+            seen[nm] = [(c, b, k) for (c, b, k, sn) in bodies]
+            for (_, b, _, sn) in bodies:
                 for n in walk_own(b):
-                    if isinstance(n, ast.Attribute) and isinstance(n.value, ast.Name) and n.value.id == "self" and isinstance(n.ctx, ast.Load):
+                    if isinstance(n, ast.Attribute) and isinstance(n.value, ast.Name) and n.value.id == sn and isinstance(n.ctx, ast.Load):
                         if n.attr not in seen:
                             work.append(n.attr)
         return seen
+
+    def bodies(self, nm):
+        """[(class, body ast, kind, selfname)] of the callable `nm` (method or lambda stores)."""
+        c, fn = self.method(nm)
+        if fn is not None:
+            sn = fn.args.args[0].arg if fn.args.args else "self"
+            return [(c, fn, "method", sn)]
+        out = []
+        for (c2, s) in self.stores(nm):
+            if s.kind == "lambda":
+                out.append((c2, s.value, "lambda", s.selfname))
+        return out
+
+    def selfname_of(self, body):
+        """receiver name used inside a body returned by reachable()."""
+        if isinstance(body, ast.FunctionDef):
+            return body.args.args[0].arg if body.args.args else "self"
+        par = getattr(body, "_parent", None)
+        if isinstance(par, ast.Assign):
+            for t in par.targets:
+                if isinstance(t, ast.Attribute) and isinstance(t.value, ast.Name):
+                    return t.value.id
+        return "self"
 
 
 def unresolved_reads(view: ClassView, body, selfname="self"):
@@ -139,7 +153,7 @@ def unresolved_reads(view: ClassView, body, selfname="self"):
 ARITH = (ast.BinOp, ast.UnaryOp, ast.Compare)
 
 
-def callable_misuse(view: ClassView, body):
+def callable_misuse(view: ClassView, body, selfname="self"):
     """`self.X` used as an arithmetic operand / subscripted although X is a method or a lambda attribute."""
     out = []
     for n in walk_own(body):
@@ -153,7 +167,7 @@ def callable_misuse(view: ClassView, body):
         elif isinstance(n, ast.Attribute) and n.attr in ("T", "shape") and isinstance(n.value, ast.Attribute):
             operands = [n.value]
         for o in operands:
-            if isinstance(o, ast.Attribute) and isinstance(o.value, ast.Name) and o.value.id == "self":
+            if isinstance(o, ast.Attribute) and isinstance(o.value, ast.Name) and o.value.id == selfname:
                 k = view.kind(o.attr)
                 if k in ("method", "lambda"):
                     out.append((n, o))
